@@ -715,13 +715,20 @@ class MatchKeySignature(MatchParameter):
         # pdb.set_trace()
         ksinfo = key_signature_pattern.search(kstr)
 
+        # plain key names ("Cb", "F#m", "Bb/Gm") are the 1.0.0 spelling; they
+        # must not be taken for a 0.3.0 "<name> <mode>" string (the trailing
+        # "b" or "m" would be read as the mode) nor be upper-cased as a whole
+        plain_names = [ks.strip() for ks in kstr.split("/")]
+        if all(re.fullmatch(r"[A-Ga-g][#b]*m?", ks) for ks in plain_names):
+            ksinfo = None
+
         if ksinfo is None:
             fmt = "v1.0.0"
-            ksinfo = kstr.split("/")
-            fifths1, mode1 = key_name_to_fifths_mode(ksinfo[0].upper())
+            ksinfo = [ks[0].upper() + ks[1:] for ks in plain_names]
+            fifths1, mode1 = key_name_to_fifths_mode(ksinfo[0])
             fifths2, mode2 = None, None
             if len(ksinfo) == 2:
-                fifths2, mode2 = key_name_to_fifths_mode(ksinfo[1].upper())
+                fifths2, mode2 = key_name_to_fifths_mode(ksinfo[1])
         else:
             fmt = "v0.3.0"
             step1, alter1, mode1, step2, alter2, mode2 = ksinfo.groups()
